@@ -366,7 +366,7 @@ def check_C01(rep):
     else:
         mcs = [dict(base, PidBytes={0xE1, 0x69, 0x2D, 0xB4, 0xA5, 0xF1, 0xC3, 0xD2}, Payloads={5, 133, 682}, Addrs={0, 5},
                     MaxPackets=2, MaxExtra=1),
-               dict(base, PidBytes={0xE1, 0xA5, 0xF1}, Payloads={5, 2047}, Addrs={5, 127},
+               dict(base, PidBytes={0xE1, 0xA5}, Payloads={5, 2047}, Addrs={5, 127},
                     MaxPackets=3, MaxExtra=1)]
     for sub in mcs:
         res = tlc.model_check(SPEC_DIR, "MCPktDet", tlc.render_cfg(_cfg("MCPktDet.cfg.tmpl"), sub),
@@ -388,7 +388,7 @@ def check_C01(rep):
     sub = dict(base, PidBytes={0xE1, 0x69, 0x2D, 0xB4, 0xA4, 0xA5, 0xF1, 0xC3, 0xD2}, Payloads={0, 5, 133, 682, 2047},
                Addrs={0, 5, 127}, MaxPackets=8, MaxExtra=2)
     behs = tlc.simulate(SPEC_DIR, "MCPktDet", tlc.render_cfg(_cfg("MCPktDet_sim.cfg.tmpl"), sub),
-                        num=20 if quick else 300, depth=70, seed=rep.seed * 5 + 1)
+                        num=20 if quick else 300, depth=70, seed=rep.seed * 5 + 1, timeout=1800)
     drift = 0
     for stim in sim_behaviours_to_stims(behs):
         run(stim, "tlc-simulate")
@@ -540,7 +540,7 @@ def check_C04(rep):
     sub = dict(base, PidBytes={0xD2, 0x5A, 0x1E, 0x96, 0xC2, 0xC3, 0xE1, 0x2D}, Payloads=set(), Addrs={0},
                MaxPackets=8, MaxExtra=2)
     behs = tlc.simulate(SPEC_DIR, "MCPktDet", tlc.render_cfg(_cfg("MCPktDet_sim.cfg.tmpl"), sub),
-                        num=12 if quick else 200, depth=60, seed=rep.seed * 5 + 2)
+                        num=12 if quick else 200, depth=60, seed=rep.seed * 5 + 2, timeout=1800)
     for stim in sim_behaviours_to_stims(behs):
         run(stim, "tlc-simulate")
     # every first byte x lengths 1..3 (and the four handshakes cut to zero bytes), with and without gaps
@@ -590,7 +590,7 @@ def check_C04(rep):
         return rec
 
     behs = tlc.simulate(SPEC_DIR, "MCHsGen", tlc.render_cfg(_cfg("MCHsGen.cfg.tmpl"), {"GLat": GLAT, "MaxReq": 1000}),
-                        num=20 if quick else 300, depth=60, seed=rep.seed * 5 + 3)
+                        num=20 if quick else 300, depth=60, seed=rep.seed * 5 + 3, timeout=1800)
     drift = 0
     for b in behs:
         stim = [st["in"] for _, st in b[1:]]
